@@ -44,7 +44,7 @@ type c01Case struct {
 }
 
 // key pool: 0..5 sha2-256 blocks (0 = empty block), 6 blake2b-256, 7..8 identity
-const c01NKeys = 9
+const c01NKeys = 10
 
 func c01Data(i int) []byte {
 	switch i {
@@ -54,6 +54,9 @@ func c01Data(i int) []byte {
 		return []byte{}
 	case 8:
 		return []byte("inline!")
+	case 9:
+		// identity CID whose payload length needs a two-byte varint
+		return bytes.Repeat([]byte("0123456789abcdef"), 9)
 	}
 	return bytes.Repeat([]byte{byte('A' + i)}, i*7+1)
 }
